@@ -158,6 +158,7 @@ run_system_assign = FunctionContract(
         "forall(lambda m2, n, a: implies(not (a == self.attribute and isresnode(m2, n)), same_at(m2, n, a)), Mol, Node, TStr)",
     ],
     ghost_at={'before:L1': "use_lemma('L_mono', molecule_lengths, 0, sel_len)"},
+    modifies=['NODES'],
     loops={'L1': LoopSpec(
         inv=["begin == PS(molecule_lengths, _i) and end == PS(molecule_lengths, _i)",
              "forall(lambda r, k, j: implies(0 <= r and r < _i and 0 <= k and k < n_res(sel(r)) and 0 <= j and "
@@ -270,6 +271,53 @@ run_system_lengths = FunctionContract(
 )
 CONTRACTS.append(run_system_lengths)
 LEMMAS.extend([L_const, L_mod, L_rep])
+
+
+
+# ------------------------------------------------------------------ AnnotateResidues.run_system as a whole: the two regions composed
+# The two regions above are block contracts here: in this proof their statements are replaced by their contracts (the same clauses,
+# literally: BlockSpec.of), so that "the second region's live-in is what the first ensures" is an obligation (block-pre:...) and the
+# statement of the property follows from the two contracts alone.
+B_LENGTHS = BlockSpec.of(run_system_lengths)
+B_ASSIGN = BlockSpec.of(run_system_assign)
+STRETCH = ("forall(lambda r, k, j: implies(0 <= r and r < sel_len and 0 <= k and k < n_res(sel(r)) and 0 <= j and j < len(res(sel(r))[k]), "
+           "   NODES[sel(r)][res(sel(r))[k][j]][self.attribute] == {V}))")
+run_system_whole = FunctionContract(
+    F, 'AnnotateResidues.run_system', 'C17', short='run_system[whole]', setup=setup_rl, spec_defs=SPEC_RL,
+    spec_recs=RECS_RS, spec_env=dict(Mol=Mol, Node=Node), blocks=[B_LENGTHS, B_ASSIGN], lemmas=[L_mono, L_nonneg],
+    # the offset of a molecule plus a residue index stays inside the sequence (prefix sums are monotone: lemmas by induction)
+    ghost_at={'after:block:run_system[lengths]': "use_lemma('L_mono', molecule_lengths, ANY, sel_len)\nuse_lemma('L_nonneg', molecule_lengths, ANY)\n"
+              "prove(forall(lambda r: implies(0 <= r and r < sel_len, PS(molecule_lengths, r + 1) == PS(molecule_lengths, r) + molecule_lengths[r] and "
+              "   PS(molecule_lengths, r + 1) <= PS(molecule_lengths, sel_len) and PS(molecule_lengths, r) >= 0)), 'a-stretch-ends-inside-the-sequence')\n"
+              "prove(forall(lambda r: implies(0 <= r and r < sel_len, PS(molecule_lengths, r) >= 0 and "
+              "   PS(molecule_lengths, r) + molecule_lengths[r] <= PS(molecule_lengths, sel_len))), 'a-stretch-lies-inside-the-sequence')"},
+    axioms=lambda cx, env: [cx.eng._b(cx.eng.spec_truth(a, env)) for a in WORLD_RS],
+    requires=LIVE_IN[:4],              # sel_ix / sel_rk enumerate the selected molecules in system order (the definition of the index maps)
+    ensures=[
+        # one of the three documented scenarios applies (anything else: ValueError, below); `sequence` - the sequence that is written -
+        # is then: the given one once per selected molecule (all equally long, the given sequence one molecule long); its single element
+        # everywhere; or the given sequence itself.  It is as long as the selection has residues
+        "valid()",
+        "len(sequence) == total() and len(molecule_lengths) == sel_len",
+        "forall(lambda r: implies(0 <= r and r < sel_len, molecule_lengths[r] == n_res(sel(r))))",
+        "implies(per_molecule(), forall(lambda r, k: implies(0 <= r and r < sel_len and 0 <= k and k < molecule_lengths[r], "
+        "   sequence[PS(molecule_lengths, r) + k] == self.sequence[k])))",
+        "implies(not per_molecule() and per_residue(), forall(lambda i: implies(0 <= i and i < total(), sequence[i] == self.sequence[0])))",
+        "implies(not per_molecule() and not per_residue(), forall(lambda i: implies(0 <= i and i < total(), sequence[i] == self.sequence[i])))",
+        # every atom of the k-th residue of the r-th selected molecule receives the element at the molecule's offset (the residues of
+        # the selected molecules before it) plus k - an element the sequence has
+        STRETCH.format(V="sequence[PS(molecule_lengths, r) + k]"),
+        "forall(lambda r, k: implies(0 <= r and r < sel_len and 0 <= k and k < n_res(sel(r)), 0 <= PS(molecule_lengths, r) + k and "
+        "   PS(molecule_lengths, r) + k < len(sequence)))",
+        # molecules that are not selected are not touched, and in a selected molecule only the annotated attribute of residue atoms
+        "forall(lambda m2, n, a: implies(not touched(m2), same_at(m2, n, a)), Mol, Node, TStr)",
+        "forall(lambda m2, n, a: implies(not (a == self.attribute and isresnode(m2, n)), same_at(m2, n, a)), Mol, Node, TStr)",
+    ],
+    # a sequence of another length: ValueError, nothing written
+    raises={'ValueError': ["not valid()", "forall(lambda m2, n, a: same_at(m2, n, a), Mol, Node, TStr)"]},
+    modifies=['NODES'],
+)
+CONTRACTS.append(run_system_whole)
 
 
 # ------------------------------------------------------------------ table facts, evaluated from the real source (ast)
